@@ -12,6 +12,7 @@ import (
 	"testing"
 
 	"github.com/go-openapi/strfmt"
+	"github.com/go-openapi/validate"
 	"gopkg.in/yaml.v3"
 	"pgregory.net/rapid"
 
@@ -37,6 +38,9 @@ type Case struct {
 	Doc    string   `json:"doc"`
 	Source string   `json:"source"`
 	Edits  []string `json:"edits"`
+	// Prior, when set, is another document that one and the same SpecValidator validates first
+	// ("after any other validations"): the validator then validates Doc and must report what a fresh one reports.
+	Prior string `json:"prior,omitempty"`
 }
 
 // independent rule edits that land in different places of a document
@@ -96,6 +100,15 @@ func genCase(t *rapid.T) Case {
 			}
 		}
 		c.Doc, c.Source = gen.Text(doc), "generated"
+		if rapid.IntRange(0, 2).Draw(t, "withprior") == 0 {
+			prior, pinfo := gen.Spec(t, gen.SpecOpts{MaxPaths: 2})
+			for _, e := range []string{"dupParamInline", "twoBodyParams", "dupOperationID"} {
+				if rapid.Bool().Draw(t, "prioredit:"+e) {
+					gen.ApplyRuleEdit(t, e, prior, pinfo)
+				}
+			}
+			c.Prior = gen.Text(prior)
+		}
 	}
 	return c
 }
@@ -296,6 +309,46 @@ func check(c Case) (out ev.Outcome) {
 		} else if rn == "json" {
 			out.Excluded = append(out.Excluded, "document rejected by the loader")
 			return out
+		}
+	}
+	// one validator object, two documents in a row
+	if c.Prior != "" && !crasher {
+		for _, cont := range []bool{false, true} {
+			want := ref[cont]
+			pd, err1, p1 := obs.LoadDoc([]byte(c.Prior))
+			cd, err2, p2 := obs.LoadDoc([]byte(c.Doc))
+			if want == nil || err1 != nil || err2 != nil || p1 != "" || p2 != "" || pd == nil || cd == nil || specdoc.KnownCrasher(c.Prior) != "" {
+				continue
+			}
+			var got obs.Outcome
+			msg, _ := obs.Guard(func() {
+				v := validate.NewSpecValidator(pd.Schema(), strfmt.Default)
+				v.SetContinueOnErrors(cont)
+				v.Validate(pd)
+				errs, _ := v.Validate(cd)
+				got = obs.FromResult(errs)
+			})
+			if msg != "" {
+				hook.ResetPools()
+				out.Excluded = append(out.Excluded, "re-using a validator panics (a C07 matter)")
+				continue
+			}
+			ge, gw := normalise(got.Errors), normalise(got.Warnings)
+			if len(knownHit) > 0 {
+				ge = eraseFirstFound(ge)
+			}
+			we := want.errs
+			if len(knownHit) > 0 {
+				we = eraseFirstFound(we)
+			}
+			if strings.Join(ge, "\x00") != strings.Join(we, "\x00") || strings.Join(gw, "\x00") != strings.Join(want.warns, "\x00") {
+				if id, ok := ev.KnownOpen("unresolved_refs_first_found_order"); ok && strings.Join(eraseFirstFound(ge), "\x00") == strings.Join(eraseFirstFound(we), "\x00") && strings.Join(gw, "\x00") == strings.Join(want.warns, "\x00") {
+					knownHit[id] = true
+					continue
+				}
+				return ev.Failf("continue-on-errors=%v: a validator that has validated another document before reports errors %q warnings %q; a fresh validator reports errors %q warnings %q", cont, ge, gw, want.errs, want.warns)
+			}
+			out.Classes = append(out.Classes, "validator-reused-after-another-document")
 		}
 	}
 	for id := range knownHit {
